@@ -158,11 +158,11 @@ def make_setup(case, M, order=None, meas=None, colorder=None):
     return InferenceSetup(**kw), frames
 
 
-def expected_cost(case, theta, order=None, meas=None, norm=None):
+def expected_cost(case, theta, order=None, meas=None, norm=None, prior=None):
     import numpy as np
     lp = 0.0
     for p, v in zip(case["est"], theta):
-        pr = case["prior"][p]
+        pr = (prior or case["prior"])[p]
         if "positive" in pr and v < 0:
             return -math.inf
         q = ref.logpdf([x for x in pr if x != "positive"], v)
@@ -310,11 +310,23 @@ def run_case(case):
                 while pm == list(case["meas"]):
                     rr.shuffle(pm)
                 steps += [("measurements", pm), ("measurements", pm[:-1])]
-            steps += [("norm_order", 1 + case["norm"] % 3), ("measurements", list(case["meas"]))]
+            # a new prior (another family / other bounds, 'positive' added) set on its own, with no other setter before the
+            # cost function is set up again
+            new_prior = {}
+            for p_ in case["est"]:
+                c_ = case["true"][p_]
+                new_prior[p_] = rr.choice([["uniform", float("%.3g" % (c_ * 0.02)), float("%.3g" % (c_ * 40))],
+                                           ["gaussian", float("%.3g" % (c_ * 1.3)), float("%.3g" % (c_ * 0.8)), "positive"],
+                                           ["log-uniform", float("%.3g" % (c_ * 0.01)), float("%.3g" % (c_ * 90))]])
+            cur_prior = None
+            steps += [("norm_order", 1 + case["norm"] % 3), ("prior", new_prior), ("measurements", list(case["meas"]))]
             for what, val in steps:
                 if what == "measurements":
                     inf6.set_measurements(list(val))
                     cur_meas = list(val)
+                elif what == "prior":
+                    inf6.set_prior({k_: list(v_) for k_, v_ in val.items()})
+                    cur_prior = val
                 else:
                     inf6.set_norm_order(val)
                     cur_norm = val
@@ -325,9 +337,16 @@ def run_case(case):
                 inf6.prepare_inference()
                 inf6.setup_cost_function()
                 v = float(inf6.cost_function(np.array(th)))
-                exp = expected_cost(case, th, meas=cur_meas, norm=cur_norm)
+                exp = expected_cost(case, th, meas=cur_meas, norm=cur_norm, prior=cur_prior)
                 C["reconfigured_evaluations"] += 1
-                if exp is not None and not (math.isfinite(v) and abs(v - exp) <= 1e-4 * (1 + abs(exp))):
+                if what == "prior":
+                    # a theta outside the NEW prior's support (negative) must now be rejected
+                    neg = [-abs(x_) for x_ in th]
+                    vneg = float(inf6.cost_function(np.array(neg)))
+                    if vneg != -math.inf:
+                        bad("stale-after-reconfiguration:prior", "after set_prior(%r) on a prepared object cost_function(%r) = %r, expected -inf" % (val, neg, vneg))
+                ok_ = True if exp is None else ((v == -math.inf) if exp == -math.inf else (math.isfinite(v) and abs(v - exp) <= 1e-4 * (1 + abs(exp))))
+                if not ok_:
                     bad("stale-after-reconfiguration:" + what, "after %s = %r on a prepared object (then prepare_inference, setup_cost_function) cost_function(%r) = %r, stated posterior %r" % (
                         what, val, th, v, exp))
                     break
